@@ -35,7 +35,8 @@ RULE = ("histories of 5-30 operations on one validator object over schemas with 
         "resolver.resolve / resolving() / in_scope() directly (also with an exception inside the context), toggle the "
         "handler ok/fail/fail-once, make a user keyword / format function / type check raise.  A case is one history "
         "(world + operation list); every history is non-trivial (>= 5 operations on one object); distinct by canonical JSON.")
-ASSUMPTIONS = ["CPython finalises dropped generators promptly (gc.collect() is called before each quiescence check)",
+ASSUMPTIONS = ["CPython finalises dropped generators promptly by reference counting; the cyclic collector is switched off "
+               "during a history and never run before a quiescence check, so a scope restored only by garbage collection counts as leaked",
                "re-entering a validator while one of its own iterators is suspended is not generated (not claimed)",
                "caches may grow; only answers are compared; the fresh validator always gets healthy handlers"]
 REPORT_COUNTERS = ["histories", "operations", "op:is_valid", "op:exhaust", "op:validate", "op:take_close", "op:take_drop",
@@ -293,7 +294,6 @@ def perform(v, op):
                 it.close()
             elif kind == "take_drop":
                 del it
-                gc.collect()
             else:
                 try:
                     it.throw(Thrown("thrown into the iterator"))
@@ -364,6 +364,15 @@ def gen_history(rng, world):
 
 
 def run_history(ctx, world, ops, slog):
+    gc.collect()
+    gc.disable()
+    try:
+        _run_history(ctx, world, ops, slog)
+    finally:
+        gc.enable()
+
+
+def _run_history(ctx, world, ops, slog):
     cls = build_class(world)
     V = build_validator(world, cls, healthy=False)
     scope0 = V.resolver.resolution_scope
@@ -389,7 +398,9 @@ def run_history(ctx, world, ops, slog):
         mode_before = world.handler_mode
         ev_before = len(slog.events)
         got = perform(V, op)
-        gc.collect()
+        # NO gc.collect() here: once the caller holds no iterator the scope must already be restored by
+        # reference counting alone (automatic cyclic collection is switched off for the whole history so
+        # that a restoration that only happens "when the collector gets round to it" is seen as the leak it is)
         where = dict(case, step=n, operation={k: v for k, v in op.items() if not k.startswith("_") and k != "instance"})
         # --- quiescent point: scope restored
         stack = V.resolver._scopes_stack
@@ -491,7 +502,6 @@ def failpoint_sweep(ctx, rng, world, LF):
             except (X.RefResolutionError, Boom):
                 fired = True
             LF.disarm()
-            gc.collect()
             ctx.count("failpoints_injected")
             site = LF.fired
             if site:
